@@ -18,7 +18,7 @@ template <class T> bool run_lattice (bool thorough)
 {
     const int K = thorough ? 5 : 4;          // box coordinates {0..K-1}, every (min,max) incl. flat and inverted
     const int OLO = thorough ? -2 : -1, ON = thorough ? 9 : 6; // origins {-1..4}^3 / {-2..6}^3
-    const int DR = thorough ? 3 : 2;         // directions {-DR..DR}^3 \ 0, unnormalised
+    const int DR = 3;                        // directions {-3..3}^3 \ 0, unnormalised (a component +-3 makes t = k/3 inexact: rounding is exercised)
     const uint64_t NB = ex::ipow ((uint64_t) K * K, 3), NO = ex::ipow (ON, 3), ND = ex::ipow (2 * DR + 1, 3);
     Tally total; std::mutex mu;
     bool ok = vf::parallel_chunks (NB, 4, [&] (uint64_t lo, uint64_t hi, unsigned) {
@@ -44,6 +44,53 @@ template <class T> bool run_lattice (bool thorough)
     });
     publish (total, "lattice.");
     vf::R ().note_max (std::string ("worst lattice point error / (eps*M), ") + tname<T> (), total.worst);
+    return ok;
+}
+
+// ---- rounding at the box boundary ---------------------------------------------------------------------------
+// The clamps in the implementation matter only when fl(p + fl(D/d)*e) falls outside [min,max] although the exact
+// value is ON the boundary. Small integers for which that happens (found by search, stated here as the alphabet):
+//   float : D=1, d=7,  e=21  ->  fl(fl(1/7)*21)  = 3 + 2^-22   (exact 3)
+//   double: D=5, d=29, e=87  ->  fl(fl(5/29)*87) = 15 + 2^-49  (exact 15)
+// Alphabet: direction components {0,+-d,+-e}; box (min,max) per axis over {0,D,P} (P = D*e/d) incl. flat/inverted;
+// origins {-D,0,D,P,P+D}^3. Same exact integer oracle, same checks.
+template <class T> bool run_rounding (bool)
+{
+    const bool f = sizeof (T) == 4;
+    const long long Dq = f ? 1 : 5, dd = f ? 7 : 29, ee = f ? 21 : 87, P = Dq * ee / dd;
+    const long long BC[3] = {0, Dq, P}, OC[5] = {-Dq, 0, Dq, P, P + Dq}, DC[5] = {0, dd, -dd, ee, -ee};
+    Tally total; std::mutex mu; std::atomic<long long> outward (0);
+    bool ok = vf::parallel_chunks (729, 1, [&] (uint64_t lo, uint64_t hi, unsigned) {
+        Tally tl; long long l_out = 0;
+        for (uint64_t bi = lo; bi < hi; ++bi)
+        {
+            long long mn[3], mx[3]; uint64_t x = bi;
+            for (int i = 0; i < 3; ++i) { int g = (int) (x % 9); x /= 9; mn[i] = BC[g % 3]; mx[i] = BC[g / 3]; }
+            for (int oi = 0; oi < 125; ++oi)
+            {
+                int oc[3]; ex::decode (oi, 5, 3, oc);
+                long long p[3] = {OC[oc[0]], OC[oc[1]], OC[oc[2]]};
+                for (int di = 1; di < 125; ++di)
+                {
+                    int dc[3]; ex::decode (di, 5, 3, dc);
+                    long long d[3] = {DC[dc[0]], DC[dc[1]], DC[dc[2]]};
+                    one_case<T, long long> (mn, mx, p, d, tl);
+                    // class: the straightforward evaluation of the exact entry point leaves the box by rounding
+                    Truth<long long> tr = slab<long long> (mn, mx, p, d);
+                    if (tr.line)
+                    {
+                        T t = (T) tr.tin.n / (T) tr.tin.d;
+                        for (int i = 0; i < 3; ++i) { T xi = (T) p[i] + t * (T) d[i]; if (xi < (T) mn[i] || xi > (T) mx[i]) { ++l_out; break; } }
+                    }
+                }
+            }
+        }
+        outward += l_out;
+        std::lock_guard<std::mutex> g (mu); total += tl;
+    });
+    publish (total, "rounding.");
+    vf::R ().cls ("rounding.entry-point-evaluates-outside-the-box(clamp needed)", outward.load ());
+    vf::R ().note_max (std::string ("worst rounding-alphabet point error / (eps*M), ") + tname<T> (), total.worst);
     return ok;
 }
 
